@@ -175,7 +175,49 @@ MANIFEST_VALS = ["null", "~", "[]", "{}", "3", "abc", "[1, 2]", "{a: b}", ".", "
                  "x" * 5000, "\"\\0\"", "*a", "&a b"]
 
 
+def multi_problem_manifest(ns: str, r: random.Random) -> str:
+    """a manifest that decodes cleanly but has two or more independent problems at once (every single-problem manifest is covered by MANIFEST_MUTS):
+    whatever collects, sorts, de-duplicates or formats the problems sees more than one of them"""
+    while True:
+        problems = 0
+        nsv = r.choice([ns, ns, ns[:1].lower() + ns[1:], "9x", "a b", "A.B", "''", "x_y"])
+        problems += nsv != ns
+        out = ["namespace: %s" % nsv]
+        for sec, key in (("cpp", "sourcesOutputDir"), ("python", "outputDir"), ("matlab", "outputDir"), ("json", "outputDir")):
+            k = r.randrange(7)
+            if k == 0:
+                out.append("%s: {}" % sec)
+                problems += 1
+            elif k == 1:
+                out.append("%s:\n  %s: ''" % (sec, key))
+                problems += 1
+            elif k == 2:
+                out.append("%s:\n  %s: ../out/%s" % (sec, key, sec))
+            elif k == 3 and sec == "cpp":
+                out.append("cpp:\n  generateHDF5: false")
+                problems += 1
+        k = r.randrange(6)
+        if k == 0:
+            out.append("imports:\n  - ../nope\n  - ../nope2")
+            problems += 2
+        elif k == 1:
+            out.append("imports:\n  - ''")
+            problems += 1
+        k = r.randrange(6)
+        if k == 0:
+            out.append("versions:\n  v0: ../nope\n  v1: ../nope2")
+            problems += 2
+        elif k == 1:
+            out.append("versions:\n  v0: ''\n  9x: .")
+            problems += 2
+        if problems >= 2:
+            r.shuffle(out)
+            return "\n".join(out) + "\n"
+
+
 def mutate_manifest(ns: str, r: random.Random) -> str:
+    if r.random() < 0.4:
+        return multi_problem_manifest(ns, r)
     return r.choice(MANIFEST_MUTS) % {"ns": ns, "v": r.choice(MANIFEST_VALS)}
 
 
